@@ -365,7 +365,7 @@ prop(
 prop(
     "C08",
     "exploration",
-    "one case = one seeded run: 1-8 interleaved instances of the 15 hash types (+4 further Skein output sizes) on one simulated host, <=30 operations "
+    "one case = one seeded run: 1-8 interleaved instances of the 15 hash types (+9 further Skein output sizes) on one simulated host, <=30 operations "
     "(update/chain with pieces aimed at every buffer fill level: 0, 1, b-f-1, b-f, b-f+1, b, 2b-1, 2b, 2b+1, k*b+r, padding boundaries, sometimes up to 64 KiB; "
     "clone; reset; finalize_reset (both trait paths); finalize; drop), every remaining instance finalised at the end; each digest compared with the same type's "
     "one-shot digest of the bytes the model says were absorbed. distinct_nontrivial = distinct abstract states (type, fill class, op kind, piece class, history flags)",
@@ -423,7 +423,7 @@ prop(
     "C16",
     "fault_enumeration",
     "one case = one operation on buffers placed by the simulator's guard-page arena: (operation kind: apply_keystream x7 ciphers with 0..130 bytes already buffered, "
-    "cipher construction from key/nonce slices x7, hash update x19 with a partly filled buffer, Threefish encrypt/decrypt x3, vector byte load/store x5 machines x5 types x le/be, "
+    "cipher construction from key/nonce slices x7, hash update x24 with a partly filled buffer, Threefish encrypt/decrypt x3, vector byte load/store x5 machines x5 types x le/be, "
     "block-API refill/refill4 output arrays and key/nonce, JH compressor block) x placement (slice ends on the last byte before an unmapped page, starts on the first byte after one, "
     "or lies mid-page between canaries) x start alignment 0..63 x length. Input-only slices are in read-only pages. The fault is a page fault: the result must equal the same "
     "operation on an ordinary buffer, canaries must be intact, the process must survive. Quick tier: seeded sample of the space plus the enumeration below for every kind. "
@@ -454,7 +454,7 @@ MiB = 1 << 20
 prop(
     "C17",
     "exploration",
-    "one case = one seeded run: one hash instance (19 types) and its independent reference model; 0-3 real pieces are absorbed, then the length counter - the hash's clock - "
+    "one case = one seeded run: one hash instance (24 types) and its independent reference model; 0-3 real pieces are absorbed, then the length counter - the hash's clock - "
     "is JUMPED (hook H2, same jump in the reference) to within 6 blocks of a boundary of that type (BLAKE-224/256: 2^32 bits, format limit 2^64-1 bits; BLAKE-384/512: 2^64-bit "
     "carry, 2^32 bits, 2^128-bit limit; Groestl: 2^8/2^16/2^32/2^64-3 blocks; JH: 2^32 bits, 2^32 bytes, 2^61 bytes; Skein: 2^32 bytes, 2^64 bytes; plus intermediate ones), then 1-6 more "
     "pieces are absorbed so that the boundary is crossed by update, by the padding, or not quite, and the digest is compared with the reference; after every step the counter read back "
@@ -508,11 +508,11 @@ prop(
 prop(
     "C18",
     "exploration",
-    "two layers. (a) one case = one seeded run of the `interleave` world: root instances of all kinds (7 cipher types, block-API states, 19 hash types, 3 Threefish sizes incl. "
+    "two layers. (a) one case = one seeded run of the `interleave` world: root instances of all kinds (7 cipher types, block-API states, 24 hash types, 3 Threefish sizes incl. "
     "with_tweak and shared keys) in one thread, calls interleaved by the seeded scheduler at call granularity on a simulated host; afterwards every instance's own operations are "
     "replayed alone in a fresh world on a fresh thread and its transcript (per-instance event-log digest) must be identical; an inner check that fails only when interleaved is a violation too. "
     "(b) one case = one cold process under a controlled scheduler: the thread workload (2-4 threads released by a barrier; in every workload ALL threads make the same kind of FIRST call - "
-    "the focus kind cycles over 31 operation kinds (19 hash types, 7 ciphers, Threefish, block API) with the workload index, which one Miri seed selects together with the schedule - so that threads race on "
+    "the focus kind cycles over 31 operation kinds (hash types, ciphers, Threefish, block API) with the workload index, which one Miri seed selects together with the schedule - so that threads race on "
     "whatever that call initialises lazily in a cold process; then short mixed histories on private instances) runs in a "
     "fresh Miri interpreter per scheduler seed; Miri's seeded scheduler decides every preemption, its data-race/deadlock detector is on, and every result is compared with the "
     "sequential one-at-a-time expectation computed natively. distinct_nontrivial = distinct abstract states of layer (a) (kind of instance, history length class, op kind) + underlying scenarios",
